@@ -112,53 +112,31 @@ pub fn relabel(sh: Shape, barrier: usize, deps: Deps, new_r: usize, new_w: usize
     a.verif_set_barrier(barrier);
     b.verif_set_barrier(barrier);
 
-    // the new system, its relabelled and permuted twin
-    let mut ra: Vec<ResourceId> = Vec::with_capacity(2);
-    let mut rb: Vec<ResourceId> = Vec::with_capacity(2);
-    let mut wa: Vec<ResourceId> = Vec::with_capacity(2);
-    let mut wb: Vec<ResourceId> = Vec::with_capacity(2);
-    let x0 = any_below(NRES);
-    let x1 = any_below(NRES);
-    let y0 = any_below(NRES);
-    let y1 = any_below(NRES);
-    let swr = any_bool();
-    let sww = any_bool();
-    if new_r >= 1 {
-        ra.push(rid_idx(x0));
+    // the new system, its relabelled and permuted twin (lists of up to three entries; the order of the twin's
+    // lists is solver-chosen; reads reach insertion_target sorted and de-duplicated, as insert passes them)
+    let mut ra: Vec<ResourceId> = Vec::with_capacity(3);
+    let mut rb: Vec<ResourceId> = Vec::with_capacity(3);
+    let mut wa: Vec<ResourceId> = Vec::with_capacity(3);
+    let mut wb: Vec<ResourceId> = Vec::with_capacity(3);
+    let x = [any_below(NRES), any_below(NRES), any_below(NRES)];
+    let y = [any_below(NRES), any_below(NRES), any_below(NRES)];
+    let kr = any_below(6);
+    let kw = any_below(6);
+    let mut i = 0;
+    while i < new_r {
+        ra.push(rid_idx(x[i]));
+        rb.push(rid_idx(look(&p, x[order_at(new_r, kr, i)])));
+        i += 1;
     }
-    if new_r >= 2 {
-        ra.push(rid_idx(x1));
+    assume_sorted_dedup(&ra);
+    assume_sorted_dedup(&rb);
+    let mut i = 0;
+    while i < new_w {
+        wa.push(rid_idx(y[i]));
+        wb.push(rid_idx(look(&p, y[order_at(new_w, kw, i)])));
+        i += 1;
     }
-    if new_r == 1 {
-        rb.push(rid_idx(look(&p, x0)));
-    }
-    if new_r >= 2 {
-        if swr {
-            rb.push(rid_idx(look(&p, x1)));
-            rb.push(rid_idx(look(&p, x0)));
-        } else {
-            rb.push(rid_idx(look(&p, x0)));
-            rb.push(rid_idx(look(&p, x1)));
-        }
-    }
-    if new_w >= 1 {
-        wa.push(rid_idx(y0));
-    }
-    if new_w >= 2 {
-        wa.push(rid_idx(y1));
-    }
-    if new_w == 1 {
-        wb.push(rid_idx(look(&p, y0)));
-    }
-    if new_w >= 2 {
-        if sww {
-            wb.push(rid_idx(look(&p, y1)));
-            wb.push(rid_idx(look(&p, y0)));
-        } else {
-            wb.push(rid_idx(look(&p, y0)));
-            wb.push(rid_idx(look(&p, y1)));
-        }
-    }
+    witness!(new_w < 2 || kw % 2 == 1, "W: twin declares its writes in another order");
     let time = any_time();
     let mut da: SmallVec<[SystemId; 4]> = SmallVec::new();
     let mut db: SmallVec<[SystemId; 4]> = SmallVec::new();
